@@ -102,8 +102,11 @@ PLAN = {
         level="proof",
         verus=["C09_flags.rs"],
         kani=True,
-        undecided_clauses=["layer sequences longer than 4 (the flag loops are checked on concrete sequences of 2-4 layers over all five layer kinds)",
-                           "that predict()/validate() perform no other write to the flags is read off the code, not proved"],
+        undecided_clauses=["the five flag loops are proved for every layer sequence (units *.loop); the dropout GUARD of each layer kind (`if self.training` around "
+                           "Tensor::dropout in the three forward functions) is a bounded Kani region per kind",
+                           "composition: validate = prologue; per-sample predictions; epilogue and learn = entry; epochs; exit is proved at the level of abstract flag-setting "
+                           "contracts (units network.validate, learn.whole), which restate - by reading - what the loop units prove",
+                           "that predict() / forward() perform no write to the flags: they take &self (type system), not a proof obligation"],
     ),
     "C10": dict(
         title="Feedback blocks keep their repeated layers weight-tied",
@@ -281,9 +284,12 @@ MANIFEST_TEXT = {
     ),
     "C09": dict(
         category="proof",
-        technique="Verus contracts on the per-layer bodies of every flag-setting loop (all layer kinds) + Kani on the verbatim flag regions over layer sequences and on each dropout guard",
+        technique="Verus contracts on the five WHOLE flag-setting loops (every layer sequence) and on their per-layer bodies + Kani on the verbatim flag regions over concrete sequences and on each dropout guard",
         design_ref="DESIGN.md §5 C09",
-        text="Verus proves, for a layer of ANY kind, that the body applied to each layer by Feedback::training, by learn's entry and exit loops and by "
+        text="Verus proves for EVERY layer sequence (mechanically extracted loops, R40 / R41): after validate's prologue no layer applies dropout and the returned flag says "
+             "whether a dense layer was training; the epilogue puts every flagged layer back into training mode iff that flag is set; learn's entry loop turns every flag on, "
+             "its exit loop every flag off; Feedback::training(b) sets every inner flag to b; none of them changes a layer's kind or any other field. "
+             "Verus also proves, for a layer of ANY kind, that the body applied to each layer by Feedback::training, by learn's entry and exit loops and by "
              "validate's prologue / epilogue sets the dropout flag as the property needs (off while validating, argument-following inside a block, "
              "on at entry, off after learn). Bounded, exhaustive within the bound: the four flag-handling regions of Network::validate and Network::learn are emitted "
              "verbatim as methods and run on concrete layer sequences (2-4 layers over dense / convolution / deconvolution / max-pool / "
